@@ -23,8 +23,15 @@ Clauses (names used in MONITOR messages):
   dispatch     an entry of a key is only ever found on the node the dispatcher assigns to the key
   marker       the not-found marker `*` is only ever written into a free slot (SET NX): an entry that is not the
                marker does not become the marker unless a DEL of its key succeeded in the same operation
+  single-loader (round 4: several instances over the same servers) the loads of ALL instances built by the
+               constructors that promise the package-wide barrier (NewConn / NewNodeConn; monc NewModel / NewNodeModel)
+               run under ONE barrier object, every node of one cache.Cache under the barrier handed to cache.New,
+               a cache the caller built keeps the caller's barrier (`insts`: barrier identity as the constructors
+               left it); concurrent readers of one key spread over such instances: at most one database query in
+               flight per promised barrier class, all readers receive the same result (`ctake … i=a+b`)
 -/
 import GoZero.C06.Model
+import GoZero.C06.Instances
 namespace GoZero.C06.Spec
 open GoZero.C06
 
@@ -271,5 +278,63 @@ def monStep (c : Cfg) (report : Bool) (m : Mon) (op : Op) (n : Nat) (o : ObsLine
         | none => none
   ({ db := { m.db with rows := newDb.rows, idx := newDb.idx }, prev := cur, excused := excused', pend := pend' },
    persistent ++ misplaced ++ overwritten ++ r.1, r.2.1)
+
+/-! ### round 4: several instances -/
+
+/-- the constructor an instance of a section is built with (section cfg `inst=<kind>/<exp>/<nf>,…`). -/
+inductive InstKind where
+  | conn            -- sqlc.NewConn / monc.NewModel
+  | node            -- sqlc.NewNodeConn / monc.NewNodeModel
+  | wc (k : Nat)    -- NewConnWithCache / NewModelWithCache over a cache built with the harness' own barrier k
+  deriving DecidableEq, Repr
+
+/-- the model's constructor (named after sqlc; the monc harness builds the three kinds with monc's constructors,
+whose barrier structure is the same: `Multi.barrierOf`). -/
+def InstKind.ctor : InstKind → Multi.Ctor
+  | .conn => .newConn
+  | .node => .newNodeConn
+  | .wc k => .newConnWithCache k
+
+/-- the barrier the constructors promise for the instance. -/
+def InstKind.barrier (k : InstKind) : Multi.Barrier := Multi.barrierOf k.ctor
+
+def barrierName : Multi.Barrier → String
+  | .sqlcPkg | .moncPkg => "the package-wide barrier"
+  | .custom k => s!"the caller's barrier number {k}"
+
+/-- the barrier object of an instance as observed: the common class number of its nodes (`none`: a node is not
+reached by the ring, or two nodes of the instance hold different barriers). -/
+def instBarrier (nodes : Nat) (l : List (Option Nat)) : Option Nat :=
+  match l with
+  | some b :: rest => if l.length = nodes ∧ rest.all (· = some b) then some b else none
+  | _ => none
+
+/-- clause `single-loader` on what the constructors built (`insts` op): `obsKinds` = implementation per instance,
+`bars` = per instance the barrier class of each node. -/
+def instClauses (nodes : Nat) (kinds : List InstKind) (obsKinds : List String) (bars : List (List (Option Nat))) : List String :=
+  if obsKinds.length ≠ kinds.length ∨ bars.length ≠ kinds.length then ["single-loader: unreadable instance report"]
+  else
+    let idx := List.range kinds.length
+    let impl : List String := idx.filterMap fun i =>
+      let want := if nodes = 1 ∨ kinds[i]? = some .node then "node" else "cluster"
+      if obsKinds[i]? ≠ some want then
+        some s!"dispatch: instance {i} is a {obsKinds[i]?.getD "?"} although its cache has {nodes} server(s)" else none
+    let own : List String := idx.filterMap fun i =>
+      if instBarrier nodes (bars[i]?.getD []) = none then
+        some s!"single-loader: the nodes of instance {i} do not all hold the barrier handed to cache.New: {repr (bars[i]?.getD [])}" else none
+    let pairs : List String := idx.flatMap fun i => (idx.filter (· > i)).filterMap fun j =>
+      match kinds[i]?, kinds[j]?, instBarrier nodes (bars[i]?.getD []), instBarrier nodes (bars[j]?.getD []) with
+      | some ki, some kj, some bi, some bj =>
+        if ki.barrier = kj.barrier ∧ bi ≠ bj then
+          some s!"single-loader: instances {i} and {j} are built by constructors that promise the same barrier ({barrierName ki.barrier}) but hold different barrier objects: concurrent reads of one key through them run separate database queries"
+        else if ki.barrier ≠ kj.barrier ∧ bi = bj then
+          some s!"single-loader: instances {i} and {j} were given different barriers but hold the same barrier object"
+        else none
+      | _, _, _, _ => none
+    impl ++ own ++ pairs
+
+/-- number of promised barrier classes among the instances `via` reads go through. -/
+def classesOf (kinds : List InstKind) (via : List Nat) : Nat :=
+  ((via.filterMap fun i => kinds[i]?).map InstKind.barrier).eraseDups.length
 
 end GoZero.C06.Spec
